@@ -723,3 +723,306 @@ Proof.
 Qed.
 
 End PickDdZ.
+
+(** ** [pick_cube_dd_set] *)
+
+(** the literal set as a ZBDD cube (see [cube_lits_z]) *)
+Inductive CubeZ (s : snap) : edge -> list (nat * bool) -> Prop :=
+| CZ_end : forall e, view_plain s e = CTerm true -> CubeZ s e []
+| CZ_dc : forall e l hi lo L, view_plain s e = CNode l hi lo -> hi = lo ->
+    CubeZ s hi L -> CubeZ s e ((l, true) :: L)
+| CZ_pos : forall e l hi lo L, view_plain s e = CNode l hi lo -> hi <> lo -> isfz s lo = true ->
+    CubeZ s hi L -> CubeZ s e ((l, false) :: L).
+
+Lemma cube_lits_z_CubeZ : forall fuel s e L, cube_lits_z fuel s e = Some L -> CubeZ s e L.
+Proof.
+  induction fuel as [|f IH]; intros s e L E; simpl in E; [discriminate|].
+  destruct (view_plain s e) as [|b|l hi lo] eqn:Ev; [discriminate| |].
+  - destruct b; [|discriminate]. inversion E. apply CZ_end. exact Ev.
+  - destruct (edge_eqb hi lo) eqn:Eq.
+    + destruct (cube_lits_z f s hi) as [L'|] eqn:El; [|discriminate]. simpl in E. inversion E.
+      eapply CZ_dc; eauto. apply edge_eqb_eq. exact Eq.
+    + destruct (isfz s lo) eqn:Fl; [|discriminate].
+      destruct (cube_lits_z f s hi) as [L'|] eqn:El; [|discriminate]. simpl in E. inversion E.
+      eapply CZ_pos; eauto. intros Heq. apply edge_eqb_eq in Heq. congruence.
+Qed.
+
+Lemma CubeZ_levels : forall s e L, ZbddOK s -> CubeZ s e L -> good_z s e ->
+  forall l b, In (l, b) L -> rlevel s (eref e) <= l.
+Proof.
+  intros s e L B C. induction C as [e Ev | e l hi lo L Ev Heq C IH | e l hi lo L Ev Hne Fl C IH]; intros G l0 b Hin.
+  - destruct Hin.
+  - destruct (z_view_node s B e l hi lo G Ev) as [El [Ll [Gh [Gl [Lh _]]]]].
+    destruct Hin as [Hin|Hin]; [inversion Hin; lia|]. specialize (IH Gh l0 b Hin). lia.
+  - destruct (z_view_node s B e l hi lo G Ev) as [El [Ll [Gh [Gl [Lh _]]]]].
+    destruct Hin as [Hin|Hin]; [inversion Hin; lia|]. specialize (IH Gh l0 b Hin). lia.
+Qed.
+
+Lemma zlit_of_absent : forall L l, (forall l' b, In (l', b) L -> l < l') -> zlit_of L l = ZNeg.
+Proof.
+  induction L as [|[l0 b0] r IH]; intros l Hl; simpl; [reflexivity|].
+  destruct (Nat.eqb_spec l0 l) as [E|_].
+  - specialize (Hl l0 b0 (or_introl eq_refl)). lia.
+  - apply IH. intros l' b Hin. apply (Hl l' b). right. exact Hin.
+Qed.
+
+(** [set_pop] on a cube: the literal set from [until] on, and the node of
+    level [until] iff the variable is not a negative literal *)
+Lemma set_pop_cubez : forall fuel s set L until, ZbddOK s -> good_z s set -> CubeZ s set L ->
+  nlevels s - rlevel s (eref set) < fuel -> until < nlevels s ->
+  exists set' L' nodeinfo, set_pop_z fuel s set until = Some (set', nodeinfo) /\ good_z s set' /\
+    CubeZ s set' L' /\ (forall l, until <= l -> zlit_of L' l = zlit_of L l) /\
+    zlit_of L until =
+    match nodeinfo with
+    | Some (shi, slo) => if edge_eqb shi slo then ZAbsent else ZPos
+    | None => ZNeg
+    end.
+Proof.
+  induction fuel as [|f IH]; intros s set L until B G C Hf Hu; [lia|].
+  simpl.
+  assert (Hstep : forall e l hi lo L0 dnc, view_plain s e = CNode l hi lo -> good_z s e ->
+            CubeZ s e ((l, dnc) :: L0) -> CubeZ s hi L0 -> dnc = edge_eqb hi lo ->
+            nlevels s - rlevel s (eref e) < S f ->
+            exists set' L' nodeinfo,
+              match Nat.compare l until with
+              | Lt => set_pop_z f s hi until
+              | Eq => Some (e, Some (hi, lo))
+              | Gt => Some (e, None)
+              end = Some (set', nodeinfo) /\ good_z s set' /\ CubeZ s set' L' /\
+              (forall l1, until <= l1 -> zlit_of L' l1 = zlit_of ((l, dnc) :: L0) l1) /\
+              zlit_of ((l, dnc) :: L0) until =
+              match nodeinfo with
+              | Some (shi, slo) => if edge_eqb shi slo then ZAbsent else ZPos
+              | None => ZNeg
+              end).
+  { intros e l hi lo L0 dnc Ev Ge Ce Ch Hd Hfe.
+    destruct (z_view_node s B e l hi lo Ge Ev) as [El [Ll [Gh [Gl [Lh _]]]]].
+    pose proof (rlevel_le s (zo_wf s B) (eref hi)).
+    destruct (Nat.compare_spec l until) as [Heq|Hlt|Hgt].
+    - subst until. exists e, ((l, dnc) :: L0), (Some (hi, lo)).
+      split; [reflexivity|]. split; [exact Ge|]. split; [exact Ce|]. split; [reflexivity|].
+      simpl. rewrite Nat.eqb_refl, <- Hd. reflexivity.
+    - destruct (IH s hi L0 until B Gh Ch ltac:(lia) Hu) as [set' [L' [ni [P [G' [C' [Hp Hz]]]]]]].
+      exists set', L', ni. split; [exact P|]. split; [exact G'|]. split; [exact C'|]. split.
+      + intros l1 Hl1. rewrite (Hp l1 Hl1). simpl. destruct (Nat.eqb_spec l l1); [lia | reflexivity].
+      + rewrite <- Hz. simpl. destruct (Nat.eqb_spec l until); [lia | reflexivity].
+    - exists e, ((l, dnc) :: L0), None.
+      split; [reflexivity|]. split; [exact Ge|]. split; [exact Ce|]. split; [reflexivity|].
+      apply zlit_of_absent. intros l' b [Hin|Hin]; [inversion Hin; lia|].
+      pose proof (CubeZ_levels s hi L0 B Ch Gh l' b Hin). lia. }
+  destruct C as [e Ev | e l hi lo L Ev Heq C | e l hi lo L Ev Hne Fl C].
+  - rewrite Ev. exists e, [], None. split; [reflexivity|]. split; [exact G|].
+    split; [apply CZ_end; exact Ev|]. split; reflexivity.
+  - rewrite Ev. apply (Hstep e l hi lo L true Ev G); [eapply CZ_dc; eauto | exact C | | exact Hf].
+    symmetry. apply edge_eqb_eq. exact Heq.
+  - rewrite Ev. apply (Hstep e l hi lo L false Ev G); [eapply CZ_pos; eauto | exact C | | exact Hf].
+    destruct (edge_eqb hi lo) eqn:Eq; [apply edge_eqb_eq in Eq; contradiction | reflexivity].
+Qed.
+
+(** how the literal set decides at a visited node *)
+Definition set_rule (s : snap) (L : list (nat * bool)) (p : step) : Prop :=
+  exists hi lo, view_plain s (sp_edge p) = CNode (sp_level p) hi lo /\
+    if isfz s lo then sp_asked p = false /\ sp_val p = Some true
+    else sp_asked p = true /\
+         sp_val p = match zlit_of L (sp_level p) with
+                    | ZPos => Some true
+                    | ZNeg => Some false
+                    | ZAbsent => if edge_eqb hi lo then None else Some true
+                    end.
+
+Lemma pick_dd_set_z_spec : forall L fuel s e set Lc, ZbddOK s -> good_z s e -> good_z s set ->
+  CubeZ s set Lc -> (forall l, rlevel s (eref e) <= l -> zlit_of Lc l = zlit_of L l) ->
+  isfz s e = false -> nlevels s - rlevel s (eref e) < fuel ->
+  exists s' r tr, pick_dd_set_z fuel s e set = Some (s', r, tr) /\
+    dd_ok s (rlevel s (eref e)) s' r tr /\ PathZ s e tr /\ forall p, In p tr -> set_rule s L p.
+Proof.
+  intros L. induction fuel as [|f IH]; intros s e set Lc B G Gs C HL Hnf Hf; [lia|].
+  cbn [pick_dd_set_z]. unfold is_false in Hnf.
+  destruct (view_plain s e) as [|b|l hi lo] eqn:Ev.
+  - exfalso. apply (z_view_err s B e G Ev).
+  - destruct b; [|discriminate]. exists s, e, [].
+    split; [reflexivity|]. split; [apply dd_ok_term; assumption|].
+    split; [apply PZ_end; exact Ev | intros p []].
+  - destruct (z_view_node s B e l hi lo G Ev) as [El [Ll [Gh [Gl [Lh [Llo [Fh _]]]]]]].
+    pose proof (rlevel_le s (zo_wf s B) (eref hi)) as Bh. pose proof (rlevel_le s (zo_wf s B) (eref lo)) as Bl.
+    pose proof (rlevel_le s (zo_wf s B) (eref set)) as Bs.
+    destruct (set_pop_cubez (S (nlevels s)) s set Lc l B Gs C ltac:(lia) Ll)
+      as [set' [L' [ni [P [G' [C' [Hp Hz]]]]]]].
+    rewrite P. rewrite (HL l ltac:(lia)) in Hz.
+    (* the decision *)
+    assert (Hdec : exists c dnc asked : bool,
+      (if isfz s lo then (true, false, false)
+       else match ni with
+            | Some (shi, slo) => (true, if edge_eqb shi slo then edge_eqb hi lo else false, true)
+            | None => (false, false, true)
+            end) = (c, dnc, asked) /\
+      (dnc = true -> hi = lo /\ c = true) /\ isfz s (if c then hi else lo) = false /\
+      (if isfz s lo then asked = false /\ (if dnc then None else Some c) = Some true
+       else asked = true /\
+            (if dnc then None else Some c) =
+            match zlit_of L l with
+            | ZPos => Some true
+            | ZNeg => Some false
+            | ZAbsent => if edge_eqb hi lo then None else Some true
+            end)).
+    { destruct (isfz s lo) eqn:Fl.
+      - exists true, false, false. repeat split; auto; discriminate.
+      - destruct ni as [[shi slo]|].
+        + destruct (edge_eqb shi slo) eqn:Es.
+          * exists true, (edge_eqb hi lo), true. rewrite Hz. split; [reflexivity|].
+            split; [intros Hd; split; [apply edge_eqb_eq; exact Hd | reflexivity]|].
+            split; [exact Fh|]. split; reflexivity.
+          * exists true, false, true. rewrite Hz. repeat split; auto; discriminate.
+        + exists false, false, true. rewrite Hz. repeat split; auto; discriminate. }
+    destruct Hdec as [c [dnc [asked [Ed [Hdnc [Fc Hrule]]]]]]. rewrite Ed.
+    assert (Gc : good_z s (if c then hi else lo)) by (destruct c; assumption).
+    assert (Lc' : l < rlevel s (eref (if c then hi else lo))) by (destruct c; assumption).
+    destruct (IH s (if c then hi else lo) set' L' B Gc G' C'
+                ltac:(intros l0 Hl0; rewrite (Hp l0 ltac:(lia)); apply HL; lia) Fc ltac:(destruct c; lia))
+      as [s1 [sub [tr [Pd [D [Pz Hr]]]]]].
+    rewrite Pd.
+    destruct (build_step s e l hi lo c dnc asked s1 sub tr B G Ev Hdnc D) as [s2 [r [Eb D2]]].
+    exists s2, r, (mkStep l e (if dnc then None else Some c) asked :: tr).
+    split; [destruct c; [rewrite Eb; reflexivity | inversion Eb; reflexivity]|].
+    split; [rewrite <- El; exact D2|]. split.
+    + apply (PZ_step s e l hi lo (if dnc then None else Some c) asked tr Ev).
+      * intros Hv. destruct dnc; [apply Hdnc; reflexivity | discriminate].
+      * destruct dnc; [destruct (Hdnc eq_refl) as [_ ->]; exact Pz | destruct c; exact Pz].
+    + intros p [<-|Hp']; [|apply Hr; exact Hp'].
+      exists hi, lo. simpl. split; [exact Ev|]. destruct (isfz s lo); exact Hrule.
+Qed.
+
+(** [pick_cube_dd_set] with a literal set that is a cube diagram: the result
+    is a non-empty cube (exactly the literals of the trace, false elsewhere)
+    that implies the function; the values follow [set_rule] *)
+Theorem pick_dd_set_z_ok : forall s e set L, ZbddOK s -> good_z s e -> good_z s set ->
+  cube_lits_z (S (nlevels s)) s set = Some L -> isfz s e = false ->
+  exists s' r tr, pick_cube_dd_set_z s e set = Some (s', r, tr) /\
+    ZbddOK s' /\ extends s s' /\ good_z s' r /\
+    (forall a, den_z s' r a = zsatb s a 0 tr) /\
+    (forall a, den_z s' r a = true -> den_z s' e a = true) /\
+    (exists a, den_z s' r a = true) /\
+    forall p, In p tr -> set_rule s L p.
+Proof.
+  intros s e set L B G Gs E Hnf. unfold pick_cube_dd_set_z.
+  pose proof (rlevel_le s (zo_wf s B) (eref e)).
+  destruct (pick_dd_set_z_spec L (S (nlevels s)) s e set L B G Gs (cube_lits_z_CubeZ _ _ _ _ E)
+              ltac:(reflexivity) Hnf ltac:(lia)) as [s' [r [tr [P [[B' [X [G' [F' [L' [T' D']]]]]] [Pz Hr]]]]]].
+  exists s', r, tr. split; [exact P|]. split; [exact B'|]. split; [exact X|]. split; [exact G'|].
+  assert (Hd : forall a, den_z s' r a = zsatb s a 0 tr).
+  { intros a. unfold den_z. change (fun_zbdd s' (eref r) a) with (Fz s' 0 (eref r) a). apply D'. lia. }
+  split; [exact Hd|]. split.
+  - intros a Ha. rewrite (den_z_extends s s' e a B X G). unfold den_z.
+    change (fun_zbdd s (eref e) a) with (Fz s 0 (eref e) a).
+    apply (pathz_sem s B e tr Pz G 0 a ltac:(lia)). rewrite <- Hd. exact Ha.
+  - split; [|exact Hr]. exists (follow tr). rewrite Hd. apply zsatb_follow.
+Qed.
+
+Theorem pick_dd_set_z_false : forall s e set, isfz s e = true ->
+  pick_cube_dd_set_z s e set = Some (s, e, []).
+Proof.
+  intros s e set. unfold is_false, pick_cube_dd_set_z. cbn [pick_dd_set_z].
+  destruct (view_plain s e) as [|[|]|]; try discriminate. reflexivity.
+Qed.
+
+(** ** [pick_cube_uniform] *)
+
+Lemma count_zbdd_spec : forall s e, ZbddOK s -> good_z s e ->
+  count_zbdd s e = Zc s (rlevel s (eref e)) (eref e).
+Proof.
+  intros s e B [G _]. unfold count_zbdd.
+  rewrite (sat_zbdd_correct s (nlevels s) (eref e) (zo_wf s B) (zo_kind s B) (le_n _) G).
+  rewrite Nat.sub_diag. change (2 ^ N.of_nat 0)%N with 1%N. rewrite N.mul_1_l.
+  rewrite <- (Zc_lower s (zo_wf s B) (rlevel s (eref e)) 0 (eref e) G eq_refl).
+  unfold Zc, count_levels. rewrite Nat.sub_0_r. reflexivity.
+Qed.
+
+Lemma count_zbdd_term : forall s e b, ZbddOK s -> good_z s e -> view_plain s e = CTerm b ->
+  count_zbdd s e = if b then 1%N else 0%N.
+Proof.
+  intros s e b B G Ev. rewrite (count_zbdd_spec s e B G).
+  destruct (view_plain_term s e b Ev) as [t [Er Et]]. rewrite Er. simpl rlevel.
+  unfold Zc. rewrite Nat.sub_diag. simpl. rewrite (Fz_term s (nlevels s) t _ _ Et).
+  rewrite Nat.sub_diag. simpl. destruct b; reflexivity.
+Qed.
+
+Lemma count_zbdd_node : forall s e l hi lo, ZbddOK s -> good_z s e -> view_plain s e = CNode l hi lo ->
+  (count_zbdd s e = count_zbdd s hi + count_zbdd s lo)%N.
+Proof.
+  intros s e l hi lo B G Ev.
+  destruct (z_view_node s B e l hi lo G Ev) as [El [Ll [Gh [Gl [Lh [Llo _]]]]]].
+  destruct (view_plain_node s e l hi lo Ev) as [id [nd [Er [E [Hc Hl]]]]].
+  rewrite (wf_stored s (zo_wf s B) id nd E) in Hl. subst l.
+  rewrite (count_zbdd_spec s e B G), (count_zbdd_spec s hi B Gh), (count_zbdd_spec s lo B Gl).
+  rewrite Er, (rlevel_node s id nd E), (Zc_node s (zo_wf s B) id nd hi lo E Hc).
+  rewrite (Zc_lower s (zo_wf s B) (rlevel s (eref hi) - S (nlevel nd)) (S (nlevel nd)) (eref hi) (proj1 Gh) ltac:(lia)).
+  rewrite (Zc_lower s (zo_wf s B) (rlevel s (eref lo) - S (nlevel nd)) (S (nlevel nd)) (eref lo) (proj1 Gl) ltac:(lia)).
+  reflexivity.
+Qed.
+
+(** number of don't-care entries a trace writes *)
+Definition dcs (tr : list step) : nat :=
+  length (filter (fun p => match sp_val p with None => true | Some _ => false end) tr).
+
+(** probability of a trace = 2^(don't cares) / #models ([count_zbdd]: the
+    number of sets of the family = models over all levels) *)
+Theorem runz_weight : forall s, ZbddOK s -> forall St choice st e tr st',
+  RunZ s St choice st e tr st' -> good_z s e ->
+  let (num, dn) := trace_weight view_plain count_zbdd s tr in
+  (0 < num /\ 0 < dn /\ 0 < count_zbdd s e /\ num * count_zbdd s e = dn * 2 ^ N.of_nat (dcs tr))%N.
+Proof.
+  intros s B St choice st e tr st' R.
+  induction R as [st e Ev | st e l hi lo tr st' Ev Heq R IH | st e l hi lo tr st' Ev Hne Fl R IH
+                 | st e l hi lo c st1 tr st' Ev Hne Fl Ec R IH]; intros G.
+  - simpl. rewrite (count_zbdd_term s e true B G Ev). change (2 ^ N.of_nat 0)%N with 1%N. lia.
+  - destruct (z_view_node s B e l hi lo G Ev) as [El [Ll [Gh [Gl _]]]].
+    pose proof (count_zbdd_node s e l hi lo B G Ev) as Hn. rewrite <- Heq in Hn.
+    specialize (IH Gh). cbn [trace_weight sp_asked].
+    destruct (trace_weight view_plain count_zbdd s tr) as [num dn]. destruct IH as [A [B0 [C D]]].
+    unfold dcs. cbn [filter sp_val length]. fold (dcs tr). rewrite pow2_S.
+    split; [exact A|]. split; [exact B0|]. split; [lia|]. rewrite Hn. lia.
+  - destruct (z_view_node s B e l hi lo G Ev) as [El [Ll [Gh [Gl _]]]].
+    pose proof (count_zbdd_node s e l hi lo B G Ev) as Hn.
+    assert (Z : count_zbdd s lo = 0%N).
+    { unfold is_false in Fl. destruct (view_plain s lo) as [|[|]|] eqn:Vl; try discriminate.
+      apply (count_zbdd_term s lo false B Gl Vl). }
+    specialize (IH Gh). cbn [trace_weight sp_asked].
+    destruct (trace_weight view_plain count_zbdd s tr) as [num dn]. destruct IH as [A [B0 [C D]]].
+    unfold dcs. cbn [filter sp_val]. fold (dcs tr).
+    split; [exact A|]. split; [exact B0|]. split; [lia|]. rewrite Hn, Z, N.add_0_r. exact D.
+  - destruct (z_view_node s B e l hi lo G Ev) as [El [Ll [Gh [Gl _]]]].
+    pose proof (count_zbdd_node s e l hi lo B G Ev) as Hn.
+    assert (G' : good_z s (if c then hi else lo)) by (destruct c; assumption).
+    specialize (IH G'). cbn [trace_weight sp_asked sp_edge sp_val]. rewrite Ev.
+    destruct (trace_weight view_plain count_zbdd s tr) as [num dn]. destruct IH as [A [B0 [C D]]].
+    unfold dcs. cbn [filter sp_val]. fold (dcs tr). rewrite <- Hn.
+    assert (P : (0 < count_zbdd s e)%N) by (destruct c; lia).
+    split; [apply N.mul_pos_pos; assumption|]. split; [apply N.mul_pos_pos; assumption|].
+    split; [exact P|].
+    replace (num * count_zbdd s (if c then hi else lo) * count_zbdd s e)%N
+      with ((num * count_zbdd s (if c then hi else lo)) * count_zbdd s e)%N by lia.
+    rewrite D. lia.
+Qed.
+
+Theorem count_zbdd_models : forall s e, ZbddOK s -> good_z s e ->
+  count_zbdd s e = count_levels (nlevels s) (fun_zbdd s (eref e)).
+Proof.
+  intros s e B [G _]. unfold count_zbdd.
+  rewrite (sat_zbdd_correct s (nlevels s) (eref e) (zo_wf s B) (zo_kind s B) (le_n _) G).
+  rewrite Nat.sub_diag. change (2 ^ N.of_nat 0)%N with 1%N. lia.
+Qed.
+
+Theorem pick_uniform_z_model : forall draws s e cb tr k, ZbddOK s -> good_z s e ->
+  pick_uniform_z draws s e = Some (Some (cb, tr, k)) ->
+  forall a, agrees s a cb -> den_z s e a = true.
+Proof.
+  intros draws s e cb tr k B G E.
+  apply (pick_cube_z_implicant nat (uni_choice_z draws s) s 0 e cb tr k B G E).
+Qed.
+
+Theorem pick_uniform_z_none_iff : forall draws s e, ZbddOK s -> good_z s e ->
+  (pick_uniform_z draws s e = Some None <-> forall a, den_z s e a = false).
+Proof.
+  intros draws s e B G.
+  apply (pick_cube_z_none_iff nat (uni_choice_z draws s) s 0 e B G).
+Qed.
